@@ -685,6 +685,8 @@ class NumEnv:
             return float(np.exp(ev(args[0])))
         if kind == "log":
             return float(np.log(ev(args[0])))
+        if kind == "inf":
+            return float("inf")
         if kind == "lgamma_int":
             import math
 
@@ -805,7 +807,8 @@ def discharge(ctx: interp.Ctx, contract: Contract, res: Result, numenv: NumEnv, 
     # one batched solver query re-checks every certificate of this function instance
     if identities:
         ok, det = _smt_identities(identities, res)
-        for ob, how, g, used in identities:
+        for item in identities:
+            how = item[1]
             key = how + ("+smt" if ok else "")
             backend[key] = backend.get(key, 0) + 1
         det = dict(det)
@@ -845,6 +848,14 @@ def _discharge_one(ob, ctx, eq_assm, bool_assm, res, identities, fallback_budget
             used = [(hyps[i], m) for i, m in mult.items()]
             identities.append((ob, f"certificate{strategy}", g, used))
             return True, None, None
+        # inverse atoms r = 1/p of non-monomials: clear denominators (p != 0) and try again
+        g2, factors = cert.clear_inverses(g.p)
+        if factors:
+            okc, mult, rem2, strategy = prover.prove(g2)
+            if okc:
+                used = [(hyps[i], m) for i, m in mult.items()]
+                identities.append((ob, f"certificate{strategy}/cleared", g, used, (g2, factors)))
+                return True, None, None
         # fall back to SMT with all hypotheses (small scalar goals), within a per-function budget
         det = {"skipped": "fallback budget exhausted"}
         if fallback_budget[0] > 0:
@@ -869,8 +880,19 @@ def _discharge_one(ob, ctx, eq_assm, bool_assm, res, identities, fallback_budget
 def _smt_identities(identities, res):
     em = smt.Emitter()
     parts = []
-    for ob, how, g, used in identities:
+    for item in identities:
+        ob, how, g, used = item[:4]
         gt = em.need_v(g)
+        if len(item) > 4:  # denominators cleared: check  g * prod p^K == g'  (mod r p = 1) and g' == sum m h
+            g2, factors = item[4]
+            g2t = em.need_poly(g2)
+            fs = []
+            for sid, p, K in factors:
+                pt = em.need_poly(p)
+                em.need_sym(sid)
+                fs += [pt] * K
+            parts.append(f"(not (= (* {gt} {' '.join(fs)}) {g2t}))")
+            gt = g2t
         terms = []
         for hyp, m in used:
             ht = em.need_v(hyp["fact"])
